@@ -278,7 +278,24 @@ def rule_format(rep, idx):
             rshape.append((s, d))
     ok_hdr = len(hdr) == 2 and hdr[0][1] == 4 and hdr[1][1] == 'var'
     rep.add('R2', 'load:header-then-image', ok_hdr, pos(rd.node) + ' hexsim::Processor::load', 'first reads: %s' % hdr)
-    rep.add('R2', 'symbol-table-shape', wshape == rshape and bool(wshape), pos(wdbg.node) + ' hexasm::CodeGen::emitDebugInfo / ' + pos(rd.node) + ' hexsim::Processor::load',
+    def opaque(fn):
+        """Does the function move data through something this rule does not look into (templates, lambdas, std algorithms, helper classes)?"""
+        for x in walk(fn.body):
+            if x.get('kind') == 'LambdaExpr':
+                return True
+            if x.get('kind') in cast.CALL_KINDS:
+                nm = callee_of(x)[1]
+                if nm in ('copy', 'for_each', 'accumulate', 'transform', 'getline', 'readsome', 'rdbuf', 'object', 'bytes', 'raw'):
+                    return True
+                ob = callee_of(x)[3]
+                if ob is not None and any(t_ in (qt(ob) + dqt(ob)) for t_ in ('Writer', 'Reader', 'Buffer')):
+                    return True
+        return False
+    if wshape != rshape and (opaque(wdbg) or opaque(rd)):
+        rep.undecided('R2', 'symbol-table-shape', 'writer %s | reader %s differ, but one side moves data through constructs this rule does not look '
+                      'into' % (wshape, rshape), pos(wdbg.node) + ' / ' + pos(rd.node))
+    else:
+      rep.add('R2', 'symbol-table-shape', wshape == rshape and bool(wshape), pos(wdbg.node) + ' hexasm::CodeGen::emitDebugInfo / ' + pos(rd.node) + ' hexsim::Processor::load',
             'writer %s | reader %s' % (wshape, rshape))
     # pair roles: writer (index from a counter, offset from pair.second); reader (first indexes the strings, second is stored as the offset)
     wr_ok = False
@@ -309,17 +326,37 @@ def rule_format(rep, idx):
                    x.get('inner') and cast.strip(children(x)[0]).get('referencedDecl', {}).get('name') == vi[0] for x in walk(wdbg.body))
         wr_ok = from_second and incr
     rd_ok = False
+    rd_known = True
     pushes = [c for c in cast.calls_in(rd.body) if callee_of(c)[1] == 'push_back' and any(callee_of(x)[1] == 'make_pair' for x in cast.calls_in(c))]
-    if pushes:
-        mp = [x for x in cast.calls_in(pushes[-1]) if callee_of(x)[1] == 'make_pair'][0]
-        a = cast.call_args(mp)
+    emplaces = [c for c in cast.calls_in(rd.body) if callee_of(c)[1] == 'emplace_back' and len(cast.call_args(c)) == 2 and
+                callee_of(c)[3] is not None and any(y.get('kind') == 'MemberExpr' and 'debug' in str(y.get('name', '')).lower() for y in walk(callee_of(c)[3]))]
+    if not pushes and not emplaces:
+        rd_known = False
+
+    def resolve_ref(e):
+        """A local reference / value initialised from an expression stands for that expression."""
+        x = cast.strip(e)
+        while x.get('kind') in ('ImplicitCastExpr', 'ParenExpr', 'MaterializeTemporaryExpr', 'CXXConstructExpr', 'CXXBindTemporaryExpr') and len(children(x)) == 1:
+            x = cast.strip(children(x)[0])
+        if x.get('kind') == 'DeclRefExpr' and (x.get('referencedDecl') or {}).get('kind') == 'VarDecl':
+            d_ = idx.by_id.get(x['referencedDecl'].get('id'))
+            if d_ is not None and children(d_) and 'string' in qt(d_):
+                return children(d_)[-1]
+        return e
+    if pushes or emplaces:
+        if pushes:
+            mp = [x for x in cast.calls_in(pushes[-1]) if callee_of(x)[1] == 'make_pair'][0]
+            a = cast.call_args(mp)
+        else:
+            a = cast.call_args(emplaces[-1])
+        a = [resolve_ref(a[0]), a[1]]
         first_is_string = any(callee_of(x)[1] == 'operator[]' for x in cast.calls_in(a[0]))
         second_names = [x.get('referencedDecl', {}).get('name') for x in walk(a[1]) if x['kind'] == 'DeclRefExpr']
         reads = [c for c in cast.calls_in(rd.body) if callee_of(c)[1] == 'read']
         last_read_var = [x.get('referencedDecl', {}).get('name') for x in walk(cast.call_args(reads[-1])[0]) if x['kind'] == 'DeclRefExpr']
         rd_ok = first_is_string and bool(second_names) and second_names[:1] == last_read_var[:1]
-    if not wr_known:
-        rep.undecided('R2', 'pair-roles', 'the writer of the (index, offset) pairs is not in a recognised shape', pos(wdbg.node))
+    if not wr_known or not rd_known:
+        rep.undecided('R2', 'pair-roles', 'the %s of the (index, offset) pairs is not in a recognised shape' % ('writer' if not wr_known else 'reader'), pos(wdbg.node))
     else:
       rep.add('R2', 'pair-roles', wr_ok and rd_ok, pos(wdbg.node) + ' / ' + pos(rd.node),
             'writer emits (running index, pair.second): %s; reader stores (strings[first word], second word): %s' % (wr_ok, rd_ok))
@@ -450,6 +487,9 @@ def rule_loader_keeps(rep, idx, rid='R8'):
             rep.undecided(rid, key, 'loader not interpreted: %s' % e, pos(f.node) + ' hexsim::Processor::load')
             continue
         want = list(zip(names, offs))
+        if any(k_[0] == '?' for k_ in kept):
+            rep.undecided(rid, key, 'the entries the loader keeps are not (name, offset) pairs this rule can read: %s' % kept[:2], pos(f.node) + ' hexsim::Processor::load')
+            continue
         mp_ok = all(isinstance(mp.get(nm), IV) and mp[nm].concrete() and mp[nm].lo == off for nm, off in want) and len(mp) == len(want)
         ok = kept == want and mp_ok and not ub
         rep.add(rid, key, ok, pos(f.node) + ' hexsim::Processor::load',
